@@ -27,15 +27,19 @@ Ltac Zify.zify_post_hook ::= Z.to_euclidean_division_equations.
 (* 2  well-formed environments, well-scoped programs, representation                   *)
 (* ================================================================================= *)
 (* well-scoped expressions: variables in scope, literals words, no / % *)
+(* push_expr of a ByteToInt at the root (declaration initialiser, argument) has its own code; for
+   `(o is byte) is int` with o computed or a global it is outside the model *)
+Definition not_trunc (o : iopd) : Prop := match o with OTrunc _ => False | _ => True end.
 Definition yscoped (ni nb : nat) (v : yloc) : Prop :=
   match v with YSlot j => (j < nb)%nat | YLow i => (i < ni)%nat end.
 Fixpoint oscoped (w : Z) (ng : nat) (ni nb : nat) (o : iopd) : Prop :=
   match o with
-  | OLit z => - (Machine.W w / 2) <= z < Machine.W w / 2
+  | OLit ch z => - (Machine.W w / 2) <= z < Machine.W w / 2 /\ (ch = true -> 0 <= z <= 255)
   | OVar i => (i < ni)%nat
   | OArith op x y => op_ok op /\ oscoped w ng ni nb x /\ oscoped w ng ni nb y
   | OUn _ x => oscoped w ng ni nb x
   | OGlob g => (g < ng)%nat
+  | OTrunc x => oscoped w ng ni nb x /\ match x with OGlob _ | OArith _ _ _ | OUn _ _ => True | _ => False end
   | OByte v => yscoped ni nb v
   end.
 Fixpoint bscoped (w : Z) (ng nbg : nat) (ni nb : nat) (e : bexpr) : Prop :=
@@ -52,13 +56,13 @@ Fixpoint bscoped (w : Z) (ng nbg : nat) (ni nb : nat) (e : bexpr) : Prop :=
    them, the runtime library is loaded); cf f n: function f may be called with n arguments *)
 Fixpoint sscoped (w : Z) (ng nbg : nat) (lib : Prop) (cf : nat -> nat -> Prop) (ni nb : nat) (inloop : bool) (s : stmt) : Prop :=
   match s with
-  | SDeclI o => oscoped w ng ni nb o
+  | SDeclI o => oscoped w ng ni nb o /\ not_trunc o
   | SAssignI i o => (i < ni)%nat /\ oscoped w ng ni nb o
   | SDeclB e => bscoped w ng nbg ni nb e
   | SAssignB j e => (j < nb)%nat /\ bscoped w ng nbg ni nb e
   | SWrite (WrByte o) => oscoped w ng ni nb o
   | SWrite _ | SWriteln => True
-  | SWriteI _ o => oscoped w ng ni nb o /\ lib              (* the runtime library must be there *)
+  | SWriteI _ o => (oscoped w ng ni nb o /\ not_trunc o) /\ lib              (* the runtime library must be there *)
   | SWriteB _ e => bscoped w ng nbg ni nb e /\ lib
   | SIf c s1 s2 => bscoped w ng nbg ni nb c /\ ssscoped w ng nbg lib cf ni nb inloop s1 /\ ssscoped w ng nbg lib cf ni nb inloop s2
   | SWhile c b k => bscoped w ng nbg ni nb c /\ ssscoped w ng nbg lib cf ni nb true b /\ ssscoped w ng nbg lib cf ni nb inloop k
@@ -68,7 +72,7 @@ Fixpoint sscoped (w : Z) (ng nbg : nat) (lib : Prop) (cf : nat -> nat -> Prop) (
   | SAssignDiv i op a b => (i < ni)%nat /\ (op = SDiv \/ op = SMod) /\ oscoped w ng ni nb a /\ oscoped w ng ni nb b /\ lib
   | SCall dst f args =>
       match dst with DAssign i => (i < ni)%nat | DAssignG g => (g < ng)%nat | _ => True end /\
-      cf f (length args) /\ Forall (oscoped w ng ni nb) args /\ lib
+      cf f (length args) /\ (Forall (oscoped w ng ni nb) args /\ Forall not_trunc args) /\ lib
   | SReturn (Some o) => oscoped w ng ni nb o
   | SReturn None => True
   | SAssignG g o => (g < ng)%nat /\ oscoped w ng ni nb o
@@ -213,21 +217,24 @@ Qed.
 Lemma rep_oexp S s m o hi : wf_senv S -> rep S s m -> oscoped w ng (length (ioffs S)) (length (boffs S)) o -> hi <= FP m - top S ->
   oexp_ok w R (env_of S) lo hi m o.
 Proof.
-  intros Wf Rp Sc Hh. induction o as [z|i|op x IHx y IHy|u x IHx|g|yj]; cbn [oscoped oexp_ok] in *; try tauto.
+  intros Wf Rp Sc Hh. induction o as [ch z|i|op x IHx y IHy|u x IHx|g|tx IHt|yj]; cbn [oscoped oexp_ok] in *; try tauto.
   - cbn [env_of int_off]. apply (rep_slot_i S s); assumption.
   - destruct (rp_g S s m Rp g Sc) as [G0 [G1 _]]. pose proof (rp_gl S s m Rp) as Hg. pose proof (wfs_fb S Wf) as Ofb.
     pose proof (rp_regs S s m Rp) as L. destruct L, Rp. unfold gword_ok, dj. repeat split; try assumption; lia.
+  - destruct Sc as [Sx Sh]. split; [apply IHt; exact Sx|].
+    destruct tx; try exact Sh. cbn [oscoped] in Sx. destruct (rp_g S s m Rp g Sx) as [G0 _]. lia.
   - apply (rep_slot_y S s); assumption.
 Qed.
 Lemma rep_sval S s m o : wf_senv S -> rep S s m -> oscoped w ng (length (ioffs S)) (length (boffs S)) o ->
   sval w R (env_of S) m o = ieval w s o.
 Proof.
-  intros Wf Rp. induction o as [z|i|op x IHx y IHy|u x IHx|g|yj]; cbn [oscoped sval ieval]; intros Sc.
+  intros Wf Rp. induction o as [ch z|i|op x IHx y IHy|u x IHx|g|tx IHt|yj]; cbn [oscoped sval ieval]; intros Sc.
   - reflexivity.
   - cbn [env_of int_off]. apply (rp_i S s m Rp i Sc).
   - destruct Sc as [_ [Sx Sy]]. rewrite IHx, IHy by assumption. reflexivity.
   - destruct u; rewrite IHx by assumption; reflexivity.
   - apply (rp_g S s m Rp g Sc).
+  - rewrite (IHt (proj1 Sc)). reflexivity.
   - apply (rep_yval S s m yj Wf Rp Sc).
 Qed.
 Lemma rep_beval S s m e : wf_senv S -> rep S s m -> bscoped w ng nbg (length (ioffs S)) (length (boffs S)) e ->
@@ -277,7 +284,7 @@ Proof.
 Qed.
 (* the semantics does not look at the stack top *)
 Lemma sval_top E t m o : sval w R (with_top E t) m o = sval w R E m o.
-Proof. induction o as [z|i|op x IHx y IHy|u x IHx|g|yj]; cbn [sval]; [reflexivity | reflexivity | now rewrite IHx, IHy | destruct u; now rewrite IHx | reflexivity | reflexivity]. Qed.
+Proof. induction o as [ch z|i|op x IHx y IHy|u x IHx|g|tx IHt|yj]; cbn [sval]; [reflexivity | reflexivity | now rewrite IHx, IHy | destruct u; now rewrite IHx | reflexivity | now rewrite IHt | reflexivity]. Qed.
 Lemma beval_top E t m e : beval w R (with_top E t) m e = beval w R E m e.
 Proof.
   induction e as [b|j|op a b|e IH|e1 IH1 e2 IH2|e1 IH1 e2 IH2]; cbn [beval];
@@ -682,7 +689,7 @@ Lemma get_value_runs S s m rg o c0 bub c1 v p : rg = R0 \/ rg = R1 -> wf_senv S 
   need_int S o false <= FP m - lo ->
   eval_opd (env_of S) (top S) rg o false = (c0, bub) -> pop_value rg bub = (c1, v) -> plc (c0 ++ c1) p ->
   exists m2, runs (mk p m) [] (mk (p + size (c0 ++ c1)) m2) /\ agree w R lo (FP m - top S) m m2 /\
-             oval m2 (rs v) = Some (wval w R (env_of S) m o) /\ ((exists z, v = SLit z) \/ v = SReg rg \/ exists g, v = SReg (RGlob g) /\ o = OGlob g).
+             oval m2 (rs v) = Some (wval w R (env_of S) m o) /\ ((exists ch z, v = lit_sym ch z) \/ v = SReg rg \/ exists g, v = SReg (RGlob g) /\ o = OGlob g).
 Proof.
   intros Hr Wf Rp Sc Hn Ev Pv P.
   destruct (rep_opd_hyps S s m o false Wf Rp Sc Hn) as [HwE [L [Ro [Oe T]]]].
@@ -705,7 +712,8 @@ Proof.
   - eapply (agree_trans w R lo); [exact A|]. apply (agree_mono w R lo lo); [destruct Ro; lia | exact A2].
   - assert (S2' : symval w R (pop_mem w R rg bub m1) (sym_of rg bub) = Some (wval w R E m o)) by (rewrite S2, Eb; f_equal; exact V).
     unfold sym_of in S2'. rewrite Pv in S2'. cbn [snd] in S2'. apply (symval_oval w R cmem lab _ _ _ S2').
-  - rewrite Eb in Pv. destruct o as [z|i|op x y|u x|g|yj]; cbn [bub_of pop_value] in Pv; inversion Pv; eauto 6.
+  - rewrite Eb in Pv. destruct o as [ch z|i|op x y|u x|g|tx|yj]; cbn [bub_of pop_value] in Pv; try (inversion Pv; eauto 6; fail).
+    destruct (bub_of E tp rg tx false) as [? ?|[]| | | |]; cbn [to_byte pop_value] in Pv; inversion Pv; eauto 6.
 Qed.
 Lemma sval_ieval S s m o : wf_senv S -> rep S s m -> oscoped w ng (length (ioffs S)) (length (boffs S)) o ->
   sgn (wval w R (env_of S) m o) = ieval w s o /\ inrange w (wval w R (env_of S) m o).
@@ -742,12 +750,12 @@ Definition decl_int_gen (S : senv) (o : iopd) : list aline :=
   end.
 Lemma decl_int_not_byte S o : match o with OByte _ => False | _ => True end -> decl_int S o = decl_int_gen S o.
 Proof. destruct o; intros H; try reflexivity; destruct H. Qed.
-Lemma decl_int_runs S s m o p : wf_senv S -> rep S s m -> oscoped w ng (length (ioffs S)) (length (boffs S)) o ->
+Lemma decl_int_runs S s m o p : wf_senv S -> rep S s m -> oscoped w ng (length (ioffs S)) (length (boffs S)) o -> not_trunc o ->
   need_int S o true <= FP m - lo -> top S + w <= FP m - lo -> plc (decl_int S o) p ->
   exists m', runs (mk p m) [] (mk (p + size (decl_int S o)) m') /\
              rep (push_int S) (mkstore (si s ++ [ieval w s o]) (sb s) (sg s) (sgb s)) m' /\ agree w R lo (FP m - top S) m m'.
 Proof.
-  intros Wf Rp Sc Hn Ht P.
+  intros Wf Rp Sc Nt Hn Ht P.
   assert (Hob : (exists j, o = OByte j) \/ match o with OByte _ => False | _ => True end) by (destruct o; eauto).
   destruct Hob as [[j ->] | Nb0].
   { (* (x is int) of a byte-sized local: clear the word, push the byte into its low byte *)
@@ -843,12 +851,12 @@ Proof.
     eapply runs_trans; [apply (C2 c1 v p eq_refl P1)|].
     replace (p + (size c1 + (1 + 0))) with (p + size c1 + 1) by lia. exact Rn.
   - (* a computed value: eval_expr has pushed it *)
-    assert (Ebp : bub = BuPushed (tp + w)) by (rewrite Eb; destruct o; try discriminate Sf0; try destruct Nb0; cbn [bub_of]; rewrite HwE; reflexivity).
+    assert (Ebp : bub = BuPushed (tp + w)) by (rewrite Eb; destruct o; try discriminate Sf0; try destruct Nb0; try destruct Nt; cbn [bub_of]; rewrite HwE; reflexivity).
     rewrite Ebp in *. set (m1 := eval_mem w R E tp R1 o true m) in *.
     exists m1. split; [apply (Cd c0 _ p eq_refl P)|]. split; [|exact A].
     apply (rep_push_int S s m); try assumption.
     assert (Ebv : bub_val w R m1 (bub_of E tp R1 o true) = lw m1 (FP m - (tp + w))).
-    { destruct o; try discriminate Sf0; try destruct Nb0; cbn [bub_of bub_val]; rewrite HwE, (FP_agree w R lo Hw _ m m1 L A); reflexivity. }
+    { destruct o; try discriminate Sf0; try destruct Nb0; try destruct Nt; cbn [bub_of bub_val]; rewrite HwE, (FP_agree w R lo Hw _ m m1 L A); reflexivity. }
     fold tp. rewrite <- Ebv, V. exact Sv.
 Qed.
 
@@ -912,11 +920,12 @@ Proof.
               code q = Some (IYield (St r1)) ->
               runs (mk q mq) [EOut (wval w R E m o mod 256)] (mk (q + 1) mq)).
     { intros q mq Aq Oq Cq. pose proof (yield_runs q mq (St r1) _ Cq Oq) as Y. rewrite Z.mod_mod in Y by lia. exact Y. }
-    rewrite Eb in *. destruct o as [z|i|op x y|u x|g|yj]; cbn [bub_of] in *.
+    rewrite Eb in *. destruct o as [ch z|i|op x y|u x|g|tx|yj]; cbn [bub_of] in *.
     + (* a literal: masked at compile time *)
-      cbn [plc res_ins res_sym] in P1. destruct P1 as [C _]. exists m1.
+      assert (C : code (p + size c0) = Some (IYield (Imm (z mod 256)))) by (destruct ch; cbn [lit_sym plc res_ins res_sym] in P1; destruct P1 as [C _]; exact C).
+      exists m1.
       rewrite size_app. cbn [size]. split; [|split; [apply (rep_agree w R lo fb gl ng nbg Hw S s m m1 Wf Rp A) | apply (agree_fagree w R lo fb gl ng nbg S s m m1 Wf Rp A)]].
-      change [EOut (wval w R E m (OLit z) mod 256)] with ([] ++ [EOut (wval w R E m (OLit z) mod 256)]).
+      change [EOut (wval w R E m (OLit ch z) mod 256)] with ([] ++ [EOut (wval w R E m (OLit ch z) mod 256)]).
       eapply runs_trans; [exact R0'|]. replace (p + (size c0 + (1 + 0))) with (p + size c0 + 1) by lia.
       cbn [wval]. rewrite wrap_mod256. rewrite <- (Z.mod_mod z 256) by lia. rewrite <- (wrap_mod256 (z mod 256)).
       apply (yield_runs _ m1 (Imm (z mod 256))); [exact C | apply oval_imm].
@@ -1003,6 +1012,42 @@ Proof.
       unfold m2. rewrite (oval_st_sw_same w Hw cmem m1 _ _ (lo_r1 w R lo m1 L1) (lo_i1 w R lo m1 L1)). f_equal.
       rewrite (lb_lw m1 _ (lo_wf w R lo m1 L1)).
       apply (wrap_small w). unfold inrange. pose proof (W_ge w Hw1). pose proof (Z.mod_pos_bound (lw m1 (a_glob R g)) 256 ltac:(lia)). lia.
+    + (* (o is byte) is int: the register (r1, or the global) read through its low byte: lbs [r1], r *)
+      assert (Gen : forall a, 0 <= a -> wrap a = a -> inb m1 a 1 = true -> lb m1 a = wval w R E m (OTrunc tx) ->
+                code (p + size c0) = Some (ILoad WByte SState (St r1) (Imm a)) -> code (p + size c0 + 1) = Some (IYield (St r1)) ->
+                exists m', runs (mk p m) [EOut (wval w R E m (OTrunc tx) mod 256)] (mk (p + (size c0 + (1 + (1 + 0)))) m') /\ rep S s m' /\ fagree m m').
+      { intros a Ha Sa I1 Va Cl Cy.
+        pose proof (act_lbs _ m1 r1 (Imm a) a Cl ltac:(rewrite oval_imm, Sa; reflexivity) I1 (lo_i1 w R lo m1 L1)) as Al.
+        set (m2 := sw m1 r1 (lb m1 a)) in *.
+        assert (A2 : agree w R lo (FP m - tp) m m2).
+        { eapply (agree_trans w R lo); [exact A|]. apply (agree_sw w R lo Hw); [apply (lo_r1 w R lo m1 L1) | auto]. }
+        exists m2. split; [|split; [apply (rep_agree w R lo fb gl ng nbg Hw S s m m2 Wf Rp A2) | apply (agree_fagree w R lo fb gl ng nbg S s m m2 Wf Rp A2)]].
+        change [EOut (wval w R E m (OTrunc tx) mod 256)] with ([] ++ ([] ++ [EOut (wval w R E m (OTrunc tx) mod 256)])).
+        eapply runs_trans; [exact R0'|]. eapply runs_trans; [apply (runs_next act _ _ None Al)|].
+        replace (p + (size c0 + (1 + (1 + 0)))) with (p + size c0 + 1 + 1) by lia.
+        apply (Tail _ m2 A2); [|exact Cy].
+        unfold m2. rewrite (oval_st_sw_same w Hw cmem m1 _ _ (lo_r1 w R lo m1 L1) (lo_i1 w R lo m1 L1)). f_equal.
+        rewrite Va. cbn [wval]. rewrite Z.mod_mod by lia.
+        apply (wrap_small w). unfold inrange. pose proof (W_ge w Hw1). pose proof (Z.mod_pos_bound (wval w R E m tx) 256 ltac:(lia)). lia. }
+      rewrite size_app. cbn [size].
+      cbn [oscoped] in Sc. destruct Sc as [Stx Sh].
+      destruct tx as [ch z|i|op x y|u x|g|tx'|yj]; try (exfalso; exact Sh); cbn [bub_of to_byte] in *;
+        cbn [plc res_ins res_sym regaddr] in P1; destruct P1 as [Cl [Cy _]]; cbn [bub_val regaddr] in V.
+      * apply (Gen r1); try assumption.
+        -- apply (lo_r1 w R lo m1 L1).
+        -- apply (wrap_small w). unfold inrange. destruct L1. pose proof (W_even w Hw1). destruct Rp. lia.
+        -- pose proof (lo_i1 w R lo m1 L1) as X. unfold inb in *. apply andb_true_iff in X. destruct X as [X1 X2]. apply Z.leb_le in X1, X2. apply andb_true_iff. split; apply Z.leb_le; lia.
+      * apply (Gen r1); try assumption.
+        -- apply (lo_r1 w R lo m1 L1).
+        -- apply (wrap_small w). unfold inrange. destruct L1. pose proof (W_even w Hw1). destruct Rp. lia.
+        -- pose proof (lo_i1 w R lo m1 L1) as X. unfold inb in *. apply andb_true_iff in X. destruct X as [X1 X2]. apply Z.leb_le in X1, X2. apply andb_true_iff. split; apply Z.leb_le; lia.
+      * cbn [oscoped] in Stx.
+        pose proof (rep_agree w R lo fb gl ng nbg Hw S s m m1 Wf Rp A) as Rp1.
+        destruct (rp_g w R lo gl ng nbg S s m1 Rp1 g Stx) as [G0 [G1 G2]]. pose proof (rp_gl w R lo gl ng nbg S s m1 Rp1) as Hf1.
+        assert (Ha : 0 <= a_glob R g) by (destruct L1; lia).
+        apply (Gen (a_glob R g)); try assumption.
+        -- apply (wrap_small w); unfold inrange; lia.
+        -- unfold inb in *. apply andb_true_iff in G1. destruct G1 as [X1 X2]. apply Z.leb_le in X1, X2. apply andb_true_iff. split; apply Z.leb_le; lia.
     + (* a byte-sized local read as an int: lbso *)
       cbn [plc res_ins res_sym regaddr] in P1. destruct P1 as [Cl [Cy _]].
       cbn [oscoped] in Sc. cbn [env_of bool_off] in *.
@@ -1274,14 +1319,14 @@ Proof.
 Qed.
 
 (* write(o) / writeln(o) for an int: the decimal representation, through write_int *)
-Lemma writei_runs S s m ln o ec p : lib_hyps -> wf_senv S -> rep S s m -> oscoped w ng (length (ioffs S)) (length (boffs S)) o ->
+Lemma writei_runs S s m ln o ec p : lib_hyps -> wf_senv S -> rep S s m -> oscoped w ng (length (ioffs S)) (length (boffs S)) o -> not_trunc o ->
   fst (need_stmt S (SWriteI ln o)) <= FP m - lo ->
   plc ([push_ra S ec] ++ decl_int (after_ra S) o ++ call_tail S ec LibWriteInt ln) p ->
   exists m', runs (mk p m) (map EOut (decimal (ieval w s o) ++ (if ln then [10] else [])))
                   (mk (p + size ([push_ra S ec] ++ decl_int (after_ra S) o ++ call_tail S ec LibWriteInt ln)) m') /\
              rep S s m' /\ fagree m m'.
 Proof.
-  intros Hl Wf Rp Sc Hn P. pose proof Hl as [Hfp [H0 [H1 [H2 [CA [BR Hap]]]]]].
+  intros Hl Wf Rp Sc Nt Hn P. pose proof Hl as [Hfp [H0 [H1 [H2 [CA [BR Hap]]]]]].
   pose proof (rp_regs w R lo gl ng nbg S s m Rp) as L. pose proof (wfs_fb w fb S Wf) as Ofb. pose proof (wfs_w w fb S Wf) as Ews.
   assert (Hlo : 5 * w <= lo) by (destruct L; lia).
   cbn [need_stmt fst] in Hn. rewrite Ews in Hn. apply need_max in Hn. destruct Hn as [Hn Hd]. apply need_max in Hn. destruct Hn as [Hna Hnb].
@@ -1291,7 +1336,7 @@ Proof.
   set (ma := sw m (F - (tp + w)) (lab ec)) in *.
   pose proof (wf_after_ra S Wf) as Wfa. pose proof (FP_agree w R lo Hw _ m ma L Aa) as Fa.
   assert (Sca : oscoped w ng (length (ioffs (after_ra S))) (length (boffs (after_ra S))) o) by exact Sc.
-  destruct (decl_int_runs (after_ra S) s ma o _ Wfa Rpa Sca ltac:(rewrite Fa; exact Hna) ltac:(rewrite Fa; cbn [after_ra top]; rewrite Ews; fold F tp; lia) Parg)
+  destruct (decl_int_runs (after_ra S) s ma o _ Wfa Rpa Sca Nt ltac:(rewrite Fa; exact Hna) ltac:(rewrite Fa; cbn [after_ra top]; rewrite Ews; fold F tp; lia) Parg)
     as [mb [Rb [Rpb Ab]]].
   rewrite Fa in Ab. cbn [after_ra top] in Ab. rewrite Ews in Ab. fold F tp in Ab.
   assert (Amb : agree w R lo (F - tp) m mb).
@@ -1608,7 +1653,7 @@ Proof.
     destruct (Tail m2 _ A Cl) as [R3 [A3 [L3 [F3 V3]]]]. set (m3 := sw m2 r1 (lw m (FP m - w))) in *.
     assert (Ov3 : oval m3 (rs v) = Some (wval w R (env_of S) m o)).
     { pose proof (regs_ok_agree w R lo Hw _ m m2 L A) as L2.
-      destruct Vs as [[z ->] | [-> | [g [-> Eo]]]]; [exact Ov | |]; cbn [res_sym regaddr] in Ov |- *; rewrite <- Ov; unfold m3.
+      destruct Vs as [[ch [z ->]] | [-> | [g [-> Eo]]]]; [destruct ch; exact Ov | |]; cbn [res_sym regaddr] in Ov |- *; rewrite <- Ov; unfold m3.
       - apply (oval_st_sw_other w Hw cmem); [apply (lo_r1 w R lo m2 L2) | apply (lo_r0 w R lo m2 L2) | destruct L2; lia].
       - subst o. cbn [oscoped] in Sc. destruct (rp_g w R lo gl ng nbg S s m Rp g Sc) as [G0 _]. pose proof (rp_gl w R lo gl ng nbg S s m Rp) as Hg'.
         apply (oval_st_sw_other w Hw cmem); [apply (lo_r1 w R lo m2 L2) | destruct L, Rp; lia | destruct L, Rp; lia]. }
@@ -1634,24 +1679,24 @@ Qed.
 
 (* ---------- calls of the program's functions ---------- *)
 (* the arguments, pushed one word each below the return address *)
-Lemma push_args_runs args : forall S s m p, wf_senv S -> rep S s m -> Forall (oscoped w ng (length (ioffs S)) (length (boffs S))) args ->
+Lemma push_args_runs args : forall S s m p, wf_senv S -> rep S s m -> Forall (oscoped w ng (length (ioffs S)) (length (boffs S))) args -> Forall not_trunc args ->
   need_args S args <= FP m - lo -> plc (push_args S args) p ->
   exists m', runs (mk p m) [] (mk (p + size (push_args S args)) m') /\ agree w R lo (FP m - top S) m m' /\
     forall k, (k < length args)%nat ->
-      sgn (lw m' (FP m - (top S + (Z.of_nat k + 1) * w))) = ieval w s (nth k args (OLit 0)).
+      sgn (lw m' (FP m - (top S + (Z.of_nat k + 1) * w))) = ieval w s (nth k args (OLit false 0)).
 Proof.
-  induction args as [|o r IH]; intros S s m p Wf Rp Sc Hn P.
+  induction args as [|o r IH]; intros S s m p Wf Rp Sc Nts Hn P.
   - exists m. cbn [push_args size]. replace (p + 0) with p by lia. split; [apply runs_refl|].
     split; [apply agree_refl|]. intros k Hk. inversion Hk.
-  - cbn [push_args need_args] in *. inversion Sc as [|x0 l0 So Sr]; subst x0 l0.
+  - cbn [push_args need_args] in *. inversion Sc as [|x0 l0 So Sr]; subst x0 l0. inversion Nts as [|x0 l0 Nto Ntr]; subst x0 l0.
     apply need_max in Hn. destruct Hn as [Hn Hnr]. apply need_max in Hn. destruct Hn as [Hn1 Hn2].
     pose proof (wfs_w w fb S Wf) as Ews. rewrite Ews in Hn2.
     apply placed_app in P. destruct P as [P1 P2].
-    destruct (decl_int_runs S s m o p Wf Rp So Hn1 Hn2 P1) as [m1 [R1 [Rp1 A1]]].
+    destruct (decl_int_runs S s m o p Wf Rp So Nto Hn1 Hn2 P1) as [m1 [R1 [Rp1 A1]]].
     pose proof (rep_after_ra S s m m1 Wf Rp A1 Hn2) as Rpa. pose proof (wf_after_ra S Wf) as Wfa.
     pose proof (rp_regs w R lo gl ng nbg S s m Rp) as L. pose proof (FP_agree w R lo Hw _ m m1 L A1) as F1.
     pose proof (regs_ok_agree w R lo Hw _ m m1 L A1) as L1.
-    destruct (IH (after_ra S) s m1 (p + size (decl_int S o)) Wfa Rpa Sr ltac:(rewrite F1; exact Hnr) P2) as [m2 [R2 [A2 V2]]].
+    destruct (IH (after_ra S) s m1 (p + size (decl_int S o)) Wfa Rpa Sr Ntr ltac:(rewrite F1; exact Hnr) P2) as [m2 [R2 [A2 V2]]].
     cbn [after_ra top] in A2, V2. rewrite Ews, F1 in A2, V2.
     exists m2. split; [|split].
     + rewrite size_app. change (@nil event) with (@nil event ++ []). eapply runs_trans; [exact R1|].
@@ -1808,97 +1853,6 @@ Proof.
     apply (lb_sw_other w Hw1); [exact Ha | destruct Rg; lia | destruct (proj2 Rbd g h Hg Hh); lia].
 Qed.
 (* g = o;  for o a literal, a variable, or one binary operation *)
-Lemma assign_glob_runs S s m g o p : wf_senv S -> rep S s m -> (g < ng)%nat -> oscoped w ng (length (ioffs S)) (length (boffs S)) o ->
-  match o with OUn _ _ => False | _ => True end -> need_int S o false <= FP m - lo -> plc (assign_glob S g o) p ->
-  exists m', runs (mk p m) [] (mk (p + size (assign_glob S g o)) m') /\ rep S (set_g s g (ieval w s o)) m' /\ fagree m m'.
-Proof.
-  intros Wf Rp Hg Sc Nu Hn P. pose proof (rp_regs w R lo gl ng nbg S s m Rp) as L. pose proof (wfs_w w fb S Wf) as Ews.
-  destruct (sval_ieval S s m o Wf Rp Sc) as [Sv Rv]. destruct (rp_g w R lo gl ng nbg S s m Rp g Hg) as [G0 [G1 G2]].
-  pose proof (rp_gl w R lo gl ng nbg S s m Rp) as Hf. pose proof (wfs_fb w fb S Wf) as Ofb.
-  assert (Ha : 0 <= a_glob R g) by (destruct L; lia).
-  assert (HwE : wsize (env_of S) = w) by exact Ews.
-  unfold assign_glob in *. destruct o as [z|i|op x y|u x|h|yj]; [| | | destruct Nu | |].
-  - (* a literal: mov [var_g], z *)
-    cbn [eval_opd pop_value is_state_of app] in P |- *. cbn [placed res_ins res_sym regaddr] in P. destruct P as [Cm _].
-    pose proof (act_mov w code cmem p m (a_glob R g) (Imm z) (wrap z) Cm (oval_imm w cmem m z) G1) as Am.
-    destruct (rep_set_glob S s m m g (wrap z) Wf Rp (agree_refl w R lo _ m) Hg (wrap_range w Hw1 z)) as [Rp' Fa].
-    exists (sw m (a_glob R g) (wrap z)). split; [cbn [size]; replace (p + (1 + 0)) with (p + 1) by lia; apply (runs_next act _ _ None Am)|].
-    split; [|exact Fa]. cbn [wval] in Sv. rewrite Sv in Rp'. exact Rp'.
-  - (* a local: lwso [var_g], [fp], -off *)
-    cbn [eval_opd pop_value is_state_of reg_eqb app env_of int_off] in P |- *. rewrite Nat.eqb_refl in *. cbn [app] in P |- *.
-    cbn [placed res_ins res_sym regaddr] in P. destruct P as [Cl _]. cbn [oscoped] in Sc.
-    destruct (rep_slot_i w R lo fb gl ng nbg Hw S s m i (FP m - top S) Wf Rp Sc ltac:(lia)) as [O1 [O2 [O3 _]]].
-    pose proof (act_lwso w code cmem p m (a_glob R g) (St fp) (Imm (- nth i (ioffs S) 0)) (FP m) (wrap (- nth i (ioffs S) 0)) Cl
-                  (oval_st w cmem m fp (lo_if w R lo m L)) (oval_imm w cmem m _)) as Al.
-    rewrite (frame_addr w R lo Hw m _ L O1) in Al. specialize (Al O3 G1).
-    cbn [wval env_of int_off] in Sv, Rv.
-    destruct (rep_set_glob S s m m g _ Wf Rp (agree_refl w R lo _ m) Hg Rv) as [Rp' Fa].
-    eexists. split; [cbn [size]; replace (p + (1 + 0)) with (p + 1) by lia; apply (runs_next act _ _ None Al)|].
-    split; [|exact Fa]. rewrite Sv in Rp'. exact Rp'.
-  - (* a binary operation computed into the global *)
-    cbn [oscoped] in Sc. destruct Sc as [Oop [Sx Sy]].
-    unfold need_int in Hn. rewrite Ews in Hn. cbn [temps] in Hn.
-    set (E := env_of S) in *. set (tp := top S) in *.
-    assert (W0 : 0 <= w) by lia.
-    assert (Tp : Z.of_nat (temps_cmp x y) * w <= FP m - tp - lo) by (unfold temps_cmp; lia).
-    assert (Ro : room_ok w R lo tp m).
-    { apply (rep_room w R lo fb gl ng nbg S s m tp Wf Rp); [unfold tp; lia|]. assert (0 <= Z.of_nat (temps_cmp x y) * w) by (apply Z.mul_nonneg_nonneg; lia). lia. }
-    pose proof (rep_oexp w R lo fb gl ng nbg Hw S s m x (FP m - tp) Wf Rp Sx ltac:(unfold tp; lia)) as Ox.
-    pose proof (rep_oexp w R lo fb gl ng nbg Hw S s m y (FP m - tp) Wf Rp Sy ltac:(unfold tp; lia)) as Oy.
-    destruct (pair_props w R E lo Hw HwE code cmem lab x y (eval_opd_props w R E lo Hw HwE code cmem lab x)
-                (eval_opd_props w R E lo Hw HwE code cmem lab y) tp m L Ro Ox Oy Tp) as [A4 [Sl [Sr C]]].
-    set (kx := negb (is_safe y)) in *. set (bx := bub_of E tp R0 x kx) in *.
-    set (by_ := bub_of E (top_after tp bx) R1 y false) in *. set (m4 := pair_mem w R E tp x y m) in *.
-    pose proof (regs_ok_agree w R lo Hw _ m m4 L A4) as L4.
-    cbn [eval_opd] in P |- *. fold kx in P |- *.
-    destruct (eval_opd E tp R0 x kx) as [c1 bx'] eqn:E1.
-    destruct (eval_opd E (top_after tp bx') R1 y false) as [c2 by'] eqn:E2.
-    destruct (pop_value R1 by') as [c2' rhs] eqn:E3. destruct (pop_value R0 bx') as [c3 lhs] eqn:E4.
-    unfold finish_opd in P |- *. cbn [pop_value is_state_of reg_eqb] in P |- *. rewrite Nat.eqb_refl in *. rewrite !app_nil_r in *.
-    replace (c1 ++ c2 ++ c2' ++ c3 ++ [AInstr (AArith (arith_instr op) (RGlob g) lhs rhs)])
-      with ((c1 ++ c2 ++ c2' ++ c3) ++ [AInstr (AArith (arith_instr op) (RGlob g) lhs rhs)]) in * by (rewrite <- !app_assoc; reflexivity).
-    apply placed_app in P. destruct P as [P4 Pi]. cbn [placed res_ins regaddr] in Pi. destruct Pi as [Ci _].
-    destruct (C c1 bx' c2 by' c2' rhs c3 lhs p eq_refl E2 E3 E4 P4) as [El [Er R4]]. subst lhs rhs.
-    assert (Ig : inb m4 (a_glob R g) w = true) by (rewrite (agree_inb w R lo _ m m4 _ _ A4); exact G1).
-    destruct (arith_ok w Hw op (wval w R E m x) (wval w R E m y) Oop (wval_range w R E Hw m x (lo_wf w R lo m L)) (wval_range w R E Hw m y (lo_wf w R lo m L))) as [r [Ar Wr]].
-    rewrite (sgn_wval w R E lo Hw _ m x (lo_wf w R lo m L) Ox), (sgn_wval w R E lo Hw _ m y (lo_wf w R lo m L) Oy) in Wr.
-    pose proof (act_arith w code cmem _ m4 (arith_instr op) (a_glob R g) _ _ _ _ r Ci
-                  (symval_oval w R cmem lab _ _ _ Sl) (symval_oval w R cmem lab _ _ _ Sr) Ar Ig) as Aa.
-    assert (Es : sw m4 (a_glob R g) r = sw m4 (a_glob R g) (wrap r)) by (apply sw_wrap_eq; symmetry; apply (wrap_wrap w Hw1)).
-    rewrite Es in Aa.
-    destruct (rep_set_glob S s m m4 g (wrap r) Wf Rp A4 Hg (wrap_range w Hw1 r)) as [Rp' Fa].
-    eexists. split; [|split; [|exact Fa]].
-    + rewrite size_app. cbn [size]. change (@nil event) with (@nil event ++ []). eapply runs_trans; [exact R4|].
-      replace (p + (size (c1 ++ c2 ++ c2' ++ c3) + (1 + 0))) with (p + size (c1 ++ c2 ++ c2' ++ c3) + 1) by lia.
-      apply (runs_next act _ _ None Aa).
-    + assert (Ev : sgn (wrap r) = ieval w s (OArith op x y)).
-      { rewrite Wr. cbn [wval] in Sv. rewrite <- Sv. cbn [sval]. reflexivity. }
-      rewrite Ev in Rp'. exact Rp'.
-  - (* another global: mov [var_g], [var_h], or nothing for g = g *)
-    cbn [oscoped] in Sc. destruct (rp_g w R lo gl ng nbg S s m Rp h Sc) as [H0 [H1 H2]].
-    cbn [eval_opd pop_value is_state_of reg_eqb app] in P |- *. cbn [wval] in Sv, Rv.
-    destruct (Nat.eqb_spec g h) as [<-|Ne]; cbn [app] in P |- *.
-    + exists m. cbn [size]. replace (p + 0) with p by lia. split; [apply runs_refl|]. split; [|apply fagree_refl].
-      assert (Es : set_g s g (ieval w s (OGlob g)) = s).
-      { destruct s as [a b c]. unfold set_g. cbn [si sb sg ieval]. f_equal. clear. revert g. induction c as [|q r IH]; intros [|k]; cbn [upd nth]; try reflexivity. now rewrite IH. }
-      rewrite Es. exact Rp.
-    + cbn [placed res_ins res_sym regaddr] in P. destruct P as [Cm _].
-      pose proof (act_mov w code cmem p m (a_glob R g) (St (a_glob R h)) _ Cm (oval_st w cmem m _ H1) G1) as Am.
-      destruct (rep_set_glob S s m m g _ Wf Rp (agree_refl w R lo _ m) Hg Rv) as [Rp' Fa].
-      eexists. split; [cbn [size]; replace (p + (1 + 0)) with (p + 1) by lia; apply (runs_next act _ _ None Am)|].
-      split; [|exact Fa]. rewrite Sv in Rp'. exact Rp'.
-  - (* a byte-sized local read as an int: lbso [var_g], [fp], -off *)
-    cbn [eval_opd pop_value is_state_of reg_eqb app env_of bool_off] in P |- *. rewrite Nat.eqb_refl in *. cbn [app] in P |- *.
-    cbn [placed res_ins res_sym regaddr] in P. destruct P as [Cl _]. cbn [oscoped] in Sc.
-    destruct (rep_slot_y w R lo fb gl ng nbg Hw S s m yj (FP m - top S) Wf Rp Sc ltac:(lia)) as [O1 [O2 [O3 _]]].
-    pose proof (act_lbso w code cmem p m (a_glob R g) (St fp) (Imm (- byte_off (env_of S) yj)) (FP m) (wrap (- byte_off (env_of S) yj)) Cl
-                  (oval_st w cmem m fp (lo_if w R lo m L)) (oval_imm w cmem m _)) as Al.
-    rewrite (frame_addr w R lo Hw m _ L O1) in Al. specialize (Al O3 G1).
-    cbn [wval env_of bool_off] in Sv, Rv.
-    destruct (rep_set_glob S s m m g _ Wf Rp (agree_refl w R lo _ m) Hg Rv) as [Rp' Fa].
-    eexists. split; [cbn [size]; replace (p + (1 + 0)) with (p + 1) by lia; apply (runs_next act _ _ None Al)|].
-    split; [|exact Fa]. rewrite Sv in Rp'. exact Rp'.
-Qed.
 
 (* ---------- any int operand evaluated INTO a global (get_expr_value(var_g, o)) ---------- *)
 (* m' differs from ma at most in the word of global g *)
@@ -1919,7 +1873,7 @@ Qed.
 Lemma only_g_gagree g hi ma m' : gl <= a_glob R g -> only_g g ma m' -> gagree w R lo gl hi ma m'.
 Proof. intros Hg [S1 [F1 G1]]. split; [exact S1|]. split; [exact F1|]. intros x X N0 N1 N2 N3 N4. apply G1; [exact X | lia]. Qed.
 Lemma only_g_oval g ma m' v y : only_g g ma m' -> oval ma (rs v) = Some y ->
-  match v with SReg r => 0 <= regaddr R r /\ (regaddr R r + w <= a_glob R g \/ a_glob R g + w <= regaddr R r) | SLit _ => True | _ => False end ->
+  match v with SReg r => 0 <= regaddr R r /\ (regaddr R r + w <= a_glob R g \/ a_glob R g + w <= regaddr R r) | SLit _ | SChar _ => True | _ => False end ->
   oval m' (rs v) = Some y.
 Proof.
   intros O Ov Hv. destruct v as [z|r|l|c|r|x]; try contradiction; cbn [res_sym] in *.
@@ -1927,6 +1881,7 @@ Proof.
   - destruct Hv as [H0 HD]. destruct (oval_st_inv w cmem ma _ _ Ov) as [I E].
     rewrite (oval_st w cmem m' _); [rewrite (only_g_lw g ma m' _ O H0 HD), E; reflexivity|].
     unfold inb in *. rewrite (proj1 O). exact I.
+  - rewrite <- Ov. apply oval_imm_any.
 Qed.
 
 Lemma eval_glob_props S s m g : wf_senv S -> rep S s m -> (g < ng)%nat -> forall o c bub c1 v p,
@@ -1934,7 +1889,7 @@ Lemma eval_glob_props S s m g : wf_senv S -> rep S s m -> (g < ng)%nat -> forall
   eval_opd (env_of S) (top S) (RGlob g) o false = (c, bub) -> pop_value (RGlob g) bub = (c1, v) -> plc (c ++ c1) p ->
   exists ma m', agree w R lo (FP m - top S) m ma /\ only_g g ma m' /\
      runs (mk p m) [] (mk (p + size (c ++ c1)) m') /\ oval m' (rs v) = Some (wval w R (env_of S) m o) /\
-     match v with SReg r => r = RGlob g \/ exists h, r = RGlob h /\ o = OGlob h | SLit _ => True | _ => False end.
+     match v with SReg r => r = RGlob g \/ exists h, r = RGlob h /\ o = OGlob h | SLit _ | SChar _ => True | _ => False end.
 Proof.
   intros Wf Rp Hg. pose proof (rp_regs w R lo gl ng nbg S s m Rp) as L. pose proof (wfs_w w fb S Wf) as Ews.
   destruct (rp_g w R lo gl ng nbg S s m Rp g Hg) as [G0 [G1 G2]].
@@ -1951,11 +1906,11 @@ Proof.
     apply (oval_st_sw_same w Hw cmem); [exact Ha|]. unfold inb. rewrite (proj1 O), (proj1 A). exact G1. }
   assert (Inb1 : forall ma m1, agree w R lo (FP m - tp) m ma -> only_g g ma m1 -> inb m1 (a_glob R g) w = true).
   { intros ma m1 A O. unfold inb. rewrite (proj1 O), (proj1 A). exact G1. }
-  induction o as [z|i|op x IHx y IHy|u x IHx|h|yj]; intros c bub c1 v p Sc Hn Ev Pv P.
+  induction o as [ch z|i|op x IHx y IHy|u x IHx|h|tx IHt|yj]; intros c bub c1 v p Sc Hn Ev Pv P.
   - (* literal *)
     cbn [eval_opd] in Ev. inversion Ev; subst c bub. cbn [pop_value] in Pv. inversion Pv; subst c1 v.
     exists m, m. split; [apply agree_refl|]. split; [apply only_g_refl|]. cbn [app size]. replace (p + 0) with p by lia.
-    split; [apply runs_refl|]. split; [apply oval_imm | exact I].
+    split; [apply runs_refl|]. destruct ch; (split; [apply oval_imm | exact I]).
   - (* local: loaded into the global *)
     cbn [eval_opd] in Ev. inversion Ev; subst c bub. cbn [pop_value env_of int_off E] in Pv. inversion Pv; subst c1 v.
     cbn [app placed res_ins res_sym regaddr] in P. destruct P as [Cl _]. cbn [oscoped] in Sc.
@@ -2041,6 +1996,31 @@ Proof.
     cbn [oscoped] in Sc. destruct (rp_g w R lo gl ng nbg S s m Rp h Sc) as [H0 [H1 H2]].
     exists m, m. split; [apply agree_refl|]. split; [apply only_g_refl|]. cbn [app size]. replace (p + 0) with p by lia.
     split; [apply runs_refl|]. split; [cbn [res_sym regaddr wval]; apply (oval_st w cmem m _ H1) | right; eauto].
+  - (* byte access: the value into the global as usual, then its low byte: lbs [var_g], var_r *)
+    cbn [oscoped] in Sc. destruct Sc as [Stx Sh].
+    assert (Hn' : need_int S tx false <= FP m - lo) by (unfold need_int in *; cbn [temps] in Hn; exact Hn).
+    cbn [eval_opd] in Ev. destruct (eval_opd E tp (RGlob g) tx false) as [cx bx] eqn:E1. inversion Ev; subst c bub; clear Ev.
+    assert (Ebx : bx = bub_of E tp (RGlob g) tx false) by (pose proof (eval_opd_bub E tx tp (RGlob g) false) as Q; rewrite E1 in Q; exact Q).
+    assert (Sb : exists r, bx = BuReg r /\ (r = RGlob g \/ exists h, r = RGlob h /\ tx = OGlob h)).
+    { rewrite Ebx. destruct tx; try (exfalso; exact Sh); cbn [bub_of]; eexists; (split; [reflexivity|]); [left; reflexivity | left; reflexivity | right; eauto]. }
+    destruct Sb as [r [-> Hr]]. cbn [to_byte pop_value] in Pv. inversion Pv; subst c1 v; clear Pv.
+    apply placed_app in P. destruct P as [Px Pl]. cbn [placed res_ins res_sym regaddr] in Pl. destruct Pl as [Cl _].
+    destruct (IHt cx (BuReg r) [] (SReg r) p Stx Hn' eq_refl eq_refl ltac:(rewrite app_nil_r; exact Px)) as [ma [m1 [A [O [Rx [Ovx _]]]]]].
+    cbn [res_sym regaddr] in Ovx. destruct (oval_st_inv w cmem m1 _ _ Ovx) as [Ir Er].
+    assert (Hra : 0 <= regaddr R r /\ regaddr R r < W).
+    { destruct Hr as [-> | [h [-> ->]]]; cbn [regaddr]; [lia|]. cbn [oscoped] in Stx.
+      destruct (rp_g w R lo gl ng nbg S s m Rp h Stx) as [H0 _]. destruct L; lia. }
+    assert (I1b : inb m1 (regaddr R r) 1 = true).
+    { unfold inb in *. apply andb_true_iff in Ir. destruct Ir as [X1 X2]. apply Z.leb_le in X1, X2. apply andb_true_iff. split; apply Z.leb_le; lia. }
+    assert (Sa : wrap (regaddr R r) = regaddr R r) by (apply (wrap_small w); unfold inrange; lia).
+    pose proof (act_lbs _ m1 (a_glob R g) (Imm (regaddr R r)) (regaddr R r) Cl ltac:(rewrite oval_imm, Sa; reflexivity) I1b (Inb1 ma m1 A O)) as Al.
+    destruct (Step ma m1 _ _ A O Al) as [Og [Rn Ov]].
+    eexists ma, _. split; [exact A|]. split; [exact Og|]. split; [|split; [|left; reflexivity]].
+    + rewrite app_nil_r in Rx. change (@nil event) with (@nil event ++ []). eapply runs_trans; [exact Rx|]. close_with Rn.
+    + cbn [res_sym regaddr wval]. rewrite Ov. f_equal.
+      assert (Wf1 : wf_mem m1) by (apply (proj1 (proj2 O)), (proj1 (proj2 A)), (lo_wf w R lo m L)).
+      rewrite (lb_lw m1 _ Wf1), Er.
+      apply (wrap_small w). unfold inrange. pose proof (W_ge w Hw1). pose proof (Z.mod_pos_bound (wval w R E m tx) 256 ltac:(lia)). lia.
   - (* a byte-sized local read as an int: loaded into the global with lbso *)
     cbn [eval_opd] in Ev. inversion Ev; subst c bub. cbn [pop_value env_of bool_off E] in Pv. inversion Pv; subst c1 v.
     cbn [app placed res_ins res_sym regaddr] in P. destruct P as [Cl _]. cbn [oscoped] in Sc.
@@ -2569,7 +2549,7 @@ Proof.
   - (* int x = o *)
     intros d o s S li st C S' st' ex p m Ev P Wf Tg Rp Hd Sc Hn. cbn [lower_stmt] in Ev. inversion Ev; subst C S' st' ex; clear Ev.
     cbn [need_stmt fst sscoped] in *. apply need_max in Hn. destruct Hn as [Hn1 Hn2]. rewrite (wfs_w w fb S Wf) in Hn2.
-    destruct (decl_int_runs S s m o p Wf Rp Sc Hn1 Hn2 P) as [m' [Rn [Rp' Fa]]].
+    destruct (decl_int_runs S s m o p Wf Rp (proj1 Sc) (proj2 Sc) Hn1 Hn2 P) as [m' [Rn [Rp' Fa]]].
     exists m', (p + size (decl_int S o)). fin_normal Rn (agree_fagree w R lo fb gl ng nbg S s m m' Wf Rp Fa).
     split; [exact Rp' | apply wf_push_int; exact Wf].
   - (* xi = o *)
@@ -2607,7 +2587,7 @@ Proof.
     intros d ln o s S li st C S' st' ex p m Ev P Wf Tg Rp Hd Sc Hn. cbn [lower_stmt] in Ev.
     destruct (add_label LEndCall st) as [ec st1]. inversion Ev; subst C S' st' ex; clear Ev.
     cbn [sscoped] in Sc. destruct Sc as [So Hl].
-    destruct (writei_runs S s m ln o ec p Hl Wf Rp So Hn P) as [m' [Rn [Rp' Fa]]].
+    destruct (writei_runs S s m ln o ec p Hl Wf Rp (proj1 So) (proj2 So) Hn P) as [m' [Rn [Rp' Fa]]].
     eexists m', _. fin_normal Rn Fa. split; assumption.
   - (* write(bool) *)
     intros d ln e s S li st C S' st' ex p m Ev P Wf Tg Rp Hd Sc Hn. cbn [lower_stmt] in Ev.
@@ -2880,7 +2860,7 @@ Proof.
     destruct (push_ra_runs S s m ec p Wf Rp Hn1 Pra) as [Rra [Ara [Rpa Vra]]].
     set (ma := sw m (FP m - (top S + w)) (lab ec)) in *.
     pose proof (FP_agree w R lo Hw _ m ma L Ara) as Fma.
-    destruct (push_args_runs args (after_ra S) s ma _ (wf_after_ra S Wf) Rpa Sa ltac:(rewrite Fma; exact Hn2) Pargs) as [mb [Rargs [Ab Vargs]]].
+    destruct (push_args_runs args (after_ra S) s ma _ (wf_after_ra S Wf) Rpa (proj1 Sa) (proj2 Sa) ltac:(rewrite Fma; exact Hn2) Pargs) as [mb [Rargs [Ab Vargs]]].
     cbn [after_ra top] in Ab, Vargs. rewrite Ews, Fma in Ab, Vargs.
     assert (A0b : agree w R lo (FP m - top S) m mb).
     { eapply (agree_trans w R lo); [exact Ara|]. apply (agree_mono w R lo (FP m - (top S + w))); [lia | exact Ab]. }
@@ -2900,7 +2880,7 @@ Proof.
       - rewrite (ap_agree w R lo Hw _ m mb Ap A0b). apply (rp_ap w R lo gl ng nbg S s m Rp Ap).
       - symmetry. apply (lw_agree w Hw). intros x Hx. apply G1; rewrite Hap, Hfp in *; lia. }
     { intros k Hk. rewrite map_length in Hk. rewrite F1. specialize (Vargs k Hk).
-      change 0 with (ieval w s (OLit 0)). rewrite map_nth. rewrite <- Vargs. f_equal. rewrite Lwb by (rewrite Hfp; destruct L, Rp; nia).
+      change 0 with (ieval w s (OLit false 0)). rewrite map_nth. rewrite <- Vargs. f_equal. rewrite Lwb by (rewrite Hfp; destruct L, Rp; nia).
       f_equal. lia. }
     { rewrite F1. pose proof (rp_gl w R lo gl ng nbg S s m Rp). lia. }
     { exact Grb. }
@@ -2954,7 +2934,7 @@ Proof.
     destruct (push_ra_runs S s m ec p Wf Rp Hn1 Pra) as [Rra [Ara [Rpa Vra]]].
     set (ma := sw m (FP m - (top S + w)) (lab ec)) in *.
     pose proof (FP_agree w R lo Hw _ m ma L Ara) as Fma.
-    destruct (push_args_runs args (after_ra S) s ma _ (wf_after_ra S Wf) Rpa Sa ltac:(rewrite Fma; exact Hn2) Pargs) as [mb [Rargs [Ab Vargs]]].
+    destruct (push_args_runs args (after_ra S) s ma _ (wf_after_ra S Wf) Rpa (proj1 Sa) (proj2 Sa) ltac:(rewrite Fma; exact Hn2) Pargs) as [mb [Rargs [Ab Vargs]]].
     cbn [after_ra top] in Ab, Vargs. rewrite Ews, Fma in Ab, Vargs.
     assert (A0b : agree w R lo (FP m - top S) m mb).
     { eapply (agree_trans w R lo); [exact Ara|]. apply (agree_mono w R lo (FP m - (top S + w))); [lia | exact Ab]. }
@@ -2972,7 +2952,7 @@ Proof.
       - rewrite (ap_agree w R lo Hw _ m mb Ap A0b). apply (rp_ap w R lo gl ng nbg S s m Rp Ap).
       - symmetry. apply (lw_agree w Hw). intros x Hx. apply G1; rewrite Hap, Hfp in *; lia. }
     { intros k Hk. rewrite map_length in Hk. rewrite F1. specialize (Vargs k Hk).
-      change 0 with (ieval w s (OLit 0)). rewrite map_nth. rewrite <- Vargs. f_equal. rewrite Lwb by (rewrite Hfp; destruct L, Rp; nia).
+      change 0 with (ieval w s (OLit false 0)). rewrite map_nth. rewrite <- Vargs. f_equal. rewrite Lwb by (rewrite Hfp; destruct L, Rp; nia).
       f_equal. lia. }
     { rewrite F1. pose proof (rp_gl w R lo gl ng nbg S s m Rp). lia. }
     { exact Grb. }
@@ -3556,15 +3536,19 @@ Hypothesis Hlib : lib.
 Hypothesis cfb_ok : forall f n, cfb f n = true -> cf f n.
 Lemma oscoped_b_ok ni nb o : oscoped_b ni nb o = true -> oscoped w ng ni nb o.
 Proof.
-  induction o as [z|i|op x IHx y IHy|u x IHx|g|yj]; cbn [oscoped_b oscoped]; intros H.
-  - apply andb_true_iff in H. destruct H as [H1 H2]. apply Z.leb_le in H1. apply Z.ltb_lt in H2. lia.
+  induction o as [ch z|i|op x IHx y IHy|u x IHx|g|tx IHt|yj]; cbn [oscoped_b oscoped]; intros H.
+  - apply andb_true_iff in H. destruct H as [H H3]. apply andb_true_iff in H. destruct H as [H1 H2]. apply Z.leb_le in H1. apply Z.ltb_lt in H2.
+    split; [lia|]. intros ->. cbn [negb orb] in H3. apply andb_true_iff in H3. destruct H3 as [H4 H5]. apply Z.leb_le in H4, H5. lia.
   - apply Nat.ltb_lt. exact H.
   - apply andb_true_iff in H. destruct H as [H H2]. apply andb_true_iff in H. destruct H as [H0 H1].
     split; [destruct op; try discriminate H0; exact I | split; auto].
   - auto.
   - apply Nat.ltb_lt. exact H.
+  - apply andb_true_iff in H. destruct H as [H1 H2]. split; [apply IHt; exact H1|]. destruct tx; try discriminate H2; exact I.
   - destruct yj; apply Nat.ltb_lt; exact H.
 Qed.
+Lemma not_trunc_b_ok o : not_trunc_b o = true -> not_trunc o.
+Proof. destruct o; intros H; try discriminate H; exact I. Qed.
 Lemma bscoped_b_ok ni nb e : bscoped_b ni nb e = true -> bscoped w ng nbg ni nb e.
 Proof.
   induction e as [b|j|op a b|e1 IH|e1 IH1 e2 IH2|e1 IH1 e2 IH2]; cbn [bscoped_b bscoped]; intros H; auto.
@@ -3579,13 +3563,13 @@ Lemma scoped_b_ok :
   (forall ss ni nb il, ssscoped_b ni nb il ss = true -> ssscoped w ng nbg lib cf ni nb il ss).
 Proof.
   apply stmt_stmts_ind.
-  - intros o ni nb il H. apply oscoped_b_ok. exact H.
+  - intros o ni nb il H. cbn [sscoped_b sscoped] in *. apply andb_true_iff in H. destruct H as [H1 H2]. split; [apply oscoped_b_ok; exact H1 | apply not_trunc_b_ok; exact H2].
   - intros i o ni nb il H. cbn [sscoped_b sscoped] in *. andb_split H. split; [apply Nat.ltb_lt; assumption | apply oscoped_b_ok; assumption].
   - intros e ni nb il H. apply bscoped_b_ok. exact H.
   - intros j e ni nb il H. cbn [sscoped_b sscoped] in *. andb_split H. split; [apply Nat.ltb_lt; assumption | apply bscoped_b_ok; assumption].
   - intros x ni nb il H. destruct x; cbn [sscoped_b sscoped] in *; auto. apply oscoped_b_ok; exact H.
   - intros; exact I.
-  - intros ln o ni nb il H. cbn [sscoped_b sscoped] in *. split; [apply oscoped_b_ok; assumption | exact Hlib].
+  - intros ln o ni nb il H. cbn [sscoped_b sscoped] in *. apply andb_true_iff in H. destruct H as [H1 H2]. split; [split; [apply oscoped_b_ok; exact H1 | apply not_trunc_b_ok; exact H2] | exact Hlib].
   - intros ln e ni nb il H. cbn [sscoped_b sscoped] in *. split; [apply bscoped_b_ok; assumption | exact Hlib].
   - intros c s1 IH1 s2 IH2 ni nb il H. cbn [sscoped_b sscoped] in *. andb_split H. split; [apply bscoped_b_ok; assumption | split; auto].
   - intros c b IH1 k IH2 ni nb il H. cbn [sscoped_b sscoped] in *. andb_split H. split; [apply bscoped_b_ok; assumption | split; auto].
@@ -3599,8 +3583,9 @@ Proof.
     split; [destruct op; cbn [divop_b] in *; try discriminate; auto | split; [apply oscoped_b_ok; assumption | split; [apply oscoped_b_ok; assumption | exact Hlib]]].
   - intros dst f args ni nb il H. cbn [sscoped_b sscoped] in *. andb_split H.
     split; [destruct dst; try exact I; apply Nat.ltb_lt; assumption|]. split; [apply cfb_ok; assumption|].
-    split; [|exact Hlib]. apply Forall_forall. intros o Ho. apply oscoped_b_ok.
-    match goal with Hf : forallb _ _ = true |- _ => rewrite forallb_forall in Hf; apply Hf; exact Ho end.
+    split; [|exact Hlib]. split; apply Forall_forall; intros o Ho.
+    + apply oscoped_b_ok. match goal with Hf : forallb (oscoped_b _ _) _ = true |- _ => rewrite forallb_forall in Hf; apply Hf; exact Ho end.
+    + apply not_trunc_b_ok. match goal with Hf : forallb not_trunc_b _ = true |- _ => rewrite forallb_forall in Hf; apply Hf; exact Ho end.
   - intros r ni nb il H. destruct r; cbn [sscoped_b sscoped] in *; auto using oscoped_b_ok.
   - intros g o ni nb il H. cbn [sscoped_b sscoped] in *. andb_split H.
     split; [apply Nat.ltb_lt; assumption | apply oscoped_b_ok; assumption].
@@ -3931,14 +3916,14 @@ Section ExamplesS.
    if (p and c != 2) { write('A'); } else { writeln(); }
    { int k = c * c; write(k is byte); } *)
 Definition sx_ss : stmts :=
-  SCons (SDeclI (OArith SAdd (OVar 0) (OLit 1)))
+  SCons (SDeclI (OArith SAdd (OVar 0) (OLit false 1)))
   (SCons (SDeclB (BCmp SLt (OVar 3) (OVar 1)))
-  (SCons (SWhile (BCmp SLt (OVar 3) (OLit 9))
-            (SCons (SWrite (WrByte (OArith SAdd (OVar 3) (OLit 48))))
-            (SCons (SIf (BCmp SEq (OVar 3) (OLit 7)) (SCons SBreak SNil) SNil)
-            (SCons (SAssignI 3 (OArith SAdd (OVar 3) (OLit 1))) SNil)))
+  (SCons (SWhile (BCmp SLt (OVar 3) (OLit false 9))
+            (SCons (SWrite (WrByte (OArith SAdd (OVar 3) (OLit false 48))))
+            (SCons (SIf (BCmp SEq (OVar 3) (OLit false 7)) (SCons SBreak SNil) SNil)
+            (SCons (SAssignI 3 (OArith SAdd (OVar 3) (OLit false 1))) SNil)))
             SNil)
-  (SCons (SIf (BAnd (BVar (BLocal 0)) (BCmp SNe (OVar 2) (OLit 2))) (SCons (SWrite (WrChar 65)) SNil) (SCons SWriteln SNil))
+  (SCons (SIf (BAnd (BVar (BLocal 0)) (BCmp SNe (OVar 2) (OLit false 2))) (SCons (SWrite (WrChar 65)) SNil) (SCons SWriteln SNil))
   (SCons (SBlock (SCons (SDeclI (OArith SMul (OVar 2) (OVar 2))) (SCons (SWrite (WrByte (OVar 4))) SNil)))
    SNil)))).
 Definition sx_S : senv := is_you_senv 2 3.
@@ -4017,8 +4002,8 @@ End ExamplesS.
 Section ExamplesLib.
 (* int x = a * 100; writeln(x - 7); write(x > b);   with a = 5, b = 7:  "493\n" then "true" *)
 Definition lx_ss : stmts :=
-  SCons (SDeclI (OArith SMul (OVar 0) (OLit 100)))
-  (SCons (SWriteI true (OArith SSub (OVar 3) (OLit 7)))
+  SCons (SDeclI (OArith SMul (OVar 0) (OLit false 100)))
+  (SCons (SWriteI true (OArith SSub (OVar 3) (OLit false 7)))
   (SCons (SWriteB false (BCmp SGt (OVar 3) (OVar 1))) SNil)).
 Definition lx_out : list Z := [52; 57; 51; 10; 116; 114; 117; 101].
 Definition lx_code : list aline := fst (lower_body sx_S lx_ss sx_st).
@@ -4089,12 +4074,12 @@ Section ExamplesProg.
 Definition px_funs : list fundef :=
   [ mkfun 1 (SCons (SCall DDecl 1 [OVar 0])
             (SCons (SWriteI true (OVar 1))
-            (SCons (SDeclDiv SDiv (OVar 1) (OArith SSub (OVar 0) (OLit 5)))
-            (SCons (SDeclDiv SMod (OVar 2) (OLit 7))
+            (SCons (SDeclDiv SDiv (OVar 1) (OArith SSub (OVar 0) (OLit false 5)))
+            (SCons (SDeclDiv SMod (OVar 2) (OLit false 7))
             (SCons (SWriteI true (OVar 3))
             (SCons (SReturn None) SNil))))));
-    mkfun 1 (SCons (SIf (BCmp SLt (OVar 0) (OLit 2)) (SCons (SReturn (Some (OLit 1))) SNil) SNil)
-            (SCons (SCall DDecl 1 [OArith SSub (OVar 0) (OLit 1)])
+    mkfun 1 (SCons (SIf (BCmp SLt (OVar 0) (OLit false 2)) (SCons (SReturn (Some (OLit false 1))) SNil) SNil)
+            (SCons (SCall DDecl 1 [OArith SSub (OVar 0) (OLit false 1)])
             (SCons (SReturn (Some (OArith SMul (OVar 1) (OVar 0)))) SNil))) ].
 Definition px_code : list aline := lower_program 2 px_funs.
 Definition px_lib : Z := size px_code.
@@ -4184,11 +4169,11 @@ Proof. vm_compute. repeat split; reflexivity. Qed.
                              write(g0 is byte); writeln(g0); g0 /= a0 - 4; writeln(-g0); return; } *)
 Definition gx_funs : list fundef :=
   [ mkfun 1 (SCons (SAssignG 0 (OArith SAdd (OGlob 0) (OVar 0)))
-            (SCons (SAssignBG 0 (BCmp SGt (OGlob 0) (OLit 6)))
+            (SCons (SAssignBG 0 (BCmp SGt (OGlob 0) (OLit false 6)))
             (SCons (SIf (BVar (BGlobal 0)) (SCons (SWrite (WrChar 89)) SNil) (SCons (SWrite (WrChar 78)) SNil))
             (SCons (SWrite (WrByte (OGlob 0)))
             (SCons (SWriteI true (OGlob 0))
-            (SCons (SAssignGDiv 0 SDiv (OGlob 0) (OArith SSub (OVar 0) (OLit 4)))
+            (SCons (SAssignGDiv 0 SDiv (OGlob 0) (OArith SSub (OVar 0) (OLit false 4)))
             (SCons (SWriteI true (OUn UNeg (OGlob 0)))
             (SCons (SReturn None) SNil)))))))) ].
 Definition gx_code : list aline := lower_program 2 gx_funs.
@@ -4277,7 +4262,7 @@ Proof. vm_compute. repeat split; reflexivity. Qed.
                              writeln(z - ((y is byte) is int)); return; } *)
 Definition bx_funs : list fundef :=
   [ mkfun 1 (SCons (SDeclI (OByte (YLow 0)))
-            (SCons (SDeclB (BCmp SGt (OVar 1) (OLit 40)))
+            (SCons (SDeclB (BCmp SGt (OVar 1) (OLit false 40)))
             (SCons (SWriteI true (OArith SAdd (OVar 1) (OByte (YSlot 0))))
             (SCons (SDeclI (OByte (YSlot 0)))
             (SCons (SWrite (WrByte (OByte (YLow 0))))
@@ -4341,4 +4326,68 @@ Example program_byte_reads_vm_run_ex :
   | _ => False
   end.
 Proof. vm_compute. repeat split; reflexivity. Qed.
+
+(* byte casts of a global and of computed values, char literals as ints:
+     int g0 = 5;
+     empty @is_you(int a0) { writeln(((g0 is byte) is int) + 'a'); g0 = ((a0 + g0) is byte) is int; writeln(g0 - 'A');
+                             int y = 'z' - (((a0 * 2) is byte) is int); write((y + 'a') is byte); return; } *)
+Definition tx_funs : list fundef :=
+  [ mkfun 1 (SCons (SWriteI true (OArith SAdd (OTrunc (OGlob 0)) (OLit true 97)))
+            (SCons (SAssignG 0 (OTrunc (OArith SAdd (OVar 0) (OGlob 0))))
+            (SCons (SWriteI true (OArith SSub (OGlob 0) (OLit true 65)))
+            (SCons (SDeclI (OArith SSub (OLit true 122) (OTrunc (OArith SMul (OVar 0) (OLit false 2)))))
+            (SCons (SWrite (WrByte (OArith SAdd (OVar 1) (OLit true 97))))
+            (SCons (SReturn None) SNil)))))) ].
+Definition tx_code : list aline := lower_program 2 tx_funs.
+Definition tx_lib : Z := size tx_code.
+Definition tx_ga (g : nat) : Z := glob_addr 2 40 1 tx_funs (GI g).
+Definition tx_prog : list instr := resolve (hidc_regs_gb 2 0 tx_lib tx_ga (fun _ => 0)) (fun _ => 0) 0 tx_code ++ stdlib_code 2 tx_lib.
+Definition tx_mem (a0 : Z) : mem :=
+  Machine.sw 2 (Machine.sw 2 (Machine.sw 2 (Machine.sw 2 (Machine.sw 2 (mkmem 96 (FMapPositive.PositiveMap.empty Z)) 0 10) 2 94) 92 tx_lib) 90 a0) 94 5.
+Lemma tx_init a0 : - 1000 <= a0 <= 1000 -> init_ok 2 40 [a0] (tx_lib + off_all_is_win) tx_ga [5] (fun _ => 0) [] (tx_mem a0).
+Proof.
+  intros Ha.
+  assert (Wz : wf_mem (mkmem 96 (FMapPositive.PositiveMap.empty Z))) by (intros a; unfold getb; cbn [mdata]; rewrite FMapPositive.PositiveMap.gempty; lia).
+  assert (HW : Machine.W 2 = 65536) by reflexivity.
+  assert (G0 : tx_ga 0 = 94) by (vm_compute; reflexivity).
+  unfold tx_mem. constructor; cbn [length]; change (Z.of_nat 1) with 1.
+  - repeat (apply (wf_sw 2); [|lia]). exact Wz.
+  - rewrite !(lw_sw_other 2) by lia. rewrite (lw_sw_same 2) by lia. reflexivity.
+  - rewrite !(lw_sw_other 2) by lia. rewrite (lw_sw_same 2) by lia. reflexivity.
+  - rewrite !msize_sw. cbn [msize]. lia.
+  - change ((40 + 1 + 5) * 2) with 92. rewrite !(lw_sw_other 2) by lia. rewrite (lw_sw_same 2) by lia.
+    unfold off_all_is_win. rewrite Z.add_0_r. vm_compute. reflexivity.
+  - intros k Hk. destruct k as [|k]; [|cbn in Hk; lia]. cbn [nth]. change ((40 + 1 + 6) * 2 - (Z.of_nat 0 + 2) * 2) with 90.
+    rewrite (lw_sw_other 2) by lia. rewrite (lw_sw_same 2) by lia.
+    unfold Machine.sgn, Machine.wrap. rewrite HW. change (65536 / 2) with 32768.
+    destruct (Z.ltb_spec (a0 mod 65536) 32768); lia.
+  - intros g Hg. destruct g as [|g]; [|cbn in Hg; lia]. rewrite G0, HW. change ((40 + 1 + 6) * 2) with 94. split; [lia|]. split.
+    + unfold inb. rewrite !msize_sw. cbn [msize]. reflexivity.
+    + rewrite (lw_sw_same 2) by lia. vm_compute. reflexivity.
+  - intros g g' Hg Hg'. cbn in Hg, Hg'. lia.
+  - intros h Hh. cbn in Hh. lia.
+  - split; intros ? ? Hg Hh; cbn in Hg, Hh; lia.
+Qed.
+Lemma tx_ok : prog_ok_b 2 1 0 tx_funs 1 = true.
+Proof. vm_compute. reflexivity. Qed.
+(* a0 = 300: 5 + 97: "102\n"; g0 = 305 mod 256 = 49, 49 - 65: "-16\n"; y = 122 - (600 mod 256 = 88) = 34, the byte 34 + 97 = 131 *)
+Definition tx_out300 : list Z := [49; 48; 50; 10; 45; 49; 54; 10; 131].
+Lemma tx_call a0 evs res : icall 2 tx_funs 100 ((40 + 2) * 2) 0 [a0] ([5], []) = Some (evs, res) ->
+  callf 2 tx_funs ((40 + Z.of_nat (length [a0]) + 1) * 2) 0 [a0] ([5], []) evs res.
+Proof. intros H. apply (proj2 (proj2 (interp_sound 2 tx_funs 100))). exact H. Qed.
+Notation tx_act := (Machine.act 2 (code_of tx_prog) (zmem 0)).
+Example program_byte_casts_ex : exists m',
+  HidV.Sphinx.Halts.runs tx_act (mk 0 (tx_mem 300)) (map EOut tx_out300 ++ [EFlag 0]) (tnt tx_lib m').
+Proof.
+  destruct (program_lowering_correct 2 ltac:(lia) tx_funs 40 [300] 0 tx_ga [5] (fun _ => 0) [] (zmem 0) tx_out300 (CRet None ([49], [])) (tx_mem 300) tx_ok ltac:(lia)
+              ltac:(vm_compute; intro; discriminate) ltac:(vm_compute; reflexivity) (tx_init 300 ltac:(lia))
+              (tx_call 300 _ _ ltac:(vm_compute; reflexivity))) as [m' [Rn _]]. exists m'. exact Rn.
+Qed.
+Definition tx_bytes (a0 : Z) : list Z := map (fun a => getb (tx_mem a0) (Z.of_nat a)) (seq 0 96).
+Example program_byte_casts_vm_run_ex :
+  match run_program 2 (tx_bytes 300) [] tx_prog [] mon_none 4000 with
+  | OAbsorbed evs _ _ => firstn 10 evs = map EOut tx_out300 ++ [EFlag 0]
+  | _ => False
+  end.
+Proof. vm_compute. reflexivity. Qed.
 End ExamplesProg.
